@@ -64,14 +64,7 @@ SCRIPTS = {
     'unexpected-exception': 'import sys\nsys.exit(0)\n',
 }
 
-_plain = None
-
-
-def plain():
-    global _plain
-    if _plain is None:
-        _plain = core.PlainWorker()
-    return _plain
+plain = hc.plain
 
 
 def sym_date(tag, ylo, yhi):
